@@ -78,7 +78,10 @@ ALL_DOTS = [(-1, 0), (-1, 1), (0, 0), (0, 1), (1, 1)]
 MODECLASS = {"npa": "npa|nst", "nst": "npa|nst", "np": "np|ns", "ns": "np|ns"}
 FAMILIES = ["sl-nst", "sl-npa", "sl-ns", "sl-np", "vj-mgga", "vj-gga", "vi-mgga", "vi-gga", "vij-mgga", "vij-gga",
             "vk-mgga", "vk-gga", "sdmx", "sdmxg", "sdmx1", "sdmxg1", "vj+sdmx", "vj-nst", "vj-expnt", "vi-all-mgga",
-            "vi-all-gga", "vk-expnt", "sdmxfull", "nlof-npa", "nlof-np"]
+            "vi-all-gga", "vk-expnt", "sdmxfull", "nlof-npa", "nlof-np",
+            # several non-semilocal blocks in one FeatureSettings (block order sl, nldf, nlof, sdmx, hyb): added after a seeded
+            # change of the order in which FeatureSettings.ueg_vector concatenates its blocks went unnoticed
+            "all-npa", "nlof+sdmx-nst", "nldf+nlof-np", "nlof+sdmxfull-npa"]
 
 
 # ---------------------------------------------------------------------------------------------
@@ -842,6 +845,19 @@ def _family_settings(family, rng):
     if family == "sdmxfull":
         sx = st.SDMXFullSettings({1.0: ([0, 1], [2, 1, 1, 0]), 2.0: ([1, 0], [2, 1, 0, 1])})
         return gen.feature_settings("npa", None, sx)
+    if family in ("all-npa", "nlof+sdmx-nst", "nldf+nlof-np", "nlof+sdmxfull-npa"):
+        mode = family.rsplit("-", 1)[1]
+        level = "MGGA" if mode in ("npa", "nst") else "GGA"
+        fl = st.FracLaplSettings([-0.5, 0.5, 0.25], 3, 1, [(-1, 0)])
+        nl = None
+        sx = None
+        if family in ("all-npa", "nldf+nlof-np"):
+            nl = st.NLDFSettingsVJ(level, _rand_params(rng, level), "one", ["se", "se_ar2"], [_rand_params(rng, level) for _ in range(2)])
+        if family in ("all-npa", "nlof+sdmx-nst"):
+            sx = st.SDMXSettings([1, 0, 2])
+        if family == "nlof+sdmxfull-npa":
+            sx = st.SDMXFullSettings({1.0: ([0, 1], [2, 1, 0, 0]), 1.5: ([1], [1, 0, 0, 0])})
+        return gen.feature_settings(mode, nl, sx, fl)
     if family.startswith("nlof"):
         fl = st.FracLaplSettings([-1.0, -0.5, 0.25, 0.5], 4, 2, [(-1, 0), (0, 1), (0, 0)])
         return gen.feature_settings(family.split("-")[1], None, None, fl)
